@@ -212,3 +212,47 @@ Proof.
   - intros fuel T.
     apply (sanitize_untiled inp lenient U64MAX' {| max_metadata_size := mx; cumulative_mdat_box_size := c1 |} Hms Hms64 H1 fuel T).
 Qed.
+
+(* ------------------------------------------------------------------ (b) across two inputs
+   "san{cum := Some t} x = san{cum := None} (x with the until-EOF mdat header decoded as Size t)": ANY input x' of which
+   the specification's plain tiling is the tiling of x under Some t, and whose ftyp / moov payloads are those of x,
+   gives under None the result x gives under Some t.  (Writing t >= 2 into the 32-bit size field of the header is one
+   such x'; that byte-level instance is exercised by the pairwise oracle of lib/props/c14.py.) *)
+Lemma box_step_inputs cfg inp inp' s b :
+  (is FTYP b || is MOOV b = true -> tb_payload inp b = tb_payload inp' b) ->
+  box_step cfg inp s b = box_step cfg inp' s b.
+Proof.
+  intros H. unfold box_step. destruct (is FREE b || is SKIP b); [reflexivity|].
+  destruct (is FTYP b) eqn:Ef. { rewrite (H eq_refl). reflexivity. }
+  destruct (st_ftyp s); [|reflexivity]. destruct (is MDAT b); [reflexivity|].
+  destruct (is MOOV b) eqn:Em; [|reflexivity]. rewrite (H eq_refl). reflexivity.
+Qed.
+
+Lemma fold_boxes_inputs cfg inp inp' : forall bs s,
+  (forall b, In b bs -> is FTYP b || is MOOV b = true -> tb_payload inp b = tb_payload inp' b) ->
+  fold_boxes cfg inp s bs = fold_boxes cfg inp' s bs.
+Proof.
+  induction bs as [|b r IH]; intros s H; [reflexivity|]. cbn [fold_boxes].
+  rewrite (box_step_inputs cfg inp inp' s b (H b (or_introl eq_refl))). apply rbind_ext. intros s'.
+  apply IH. intros x Hx. apply H. right. exact Hx.
+Qed.
+
+Theorem cumulative_declared_size_inputs :
+  forall (inp inp' : input) (lenient : bool) (mx t : N) (bs : list tbox) (fuel fuel' : nat),
+  ilen inp <= U64MAX -> ilen inp' <= U64MAX -> t <= U32MAX ->
+  tiling (Some t) inp = Some bs -> tiling None inp' = Some bs ->
+  (forall b, In b bs -> is FTYP b || is MOOV b = true -> tb_payload inp b = tb_payload inp' b) ->
+  let r := mp4_sanitize {| max_metadata_size := mx; cumulative_mdat_box_size := Some t |} lenient U64MAX' inp fuel in
+  let r' := mp4_sanitize {| max_metadata_size := mx; cumulative_mdat_box_size := None |} lenient U64MAX' inp' fuel' in
+  r <> OutOfFuel -> r' <> OutOfFuel -> r = r'.
+Proof.
+  intros inp inp' lenient mx t bs fuel fuel' Hl Hl' Ht T T' Hp r r' F F'. subst r r'.
+  assert (Hms64 : U64MAX' <= U64MAX) by (unfold U64MAX', U64MAX; lia).
+  set (cfg := {| max_metadata_size := mx; cumulative_mdat_box_size := Some t |}) in *.
+  set (cfg' := {| max_metadata_size := mx; cumulative_mdat_box_size := None |}) in *.
+  assert (Hc : forall u, cumulative_mdat_box_size cfg = Some u -> u <= U32MAX) by (cbn; intros u E; injection E as <-; exact Ht).
+  assert (Hc' : forall u, cumulative_mdat_box_size cfg' = Some u -> u <= U32MAX) by (cbn; discriminate).
+  destruct (sanitize_tiled inp lenient U64MAX' cfg Hl Hms64 Hc fuel bs T) as [E|[E _]]; [|contradiction].
+  destruct (sanitize_tiled inp' lenient U64MAX' cfg' Hl' Hms64 Hc' fuel' bs T') as [E'|[E' _]]; [|contradiction].
+  rewrite E, E'. rewrite (fold_boxes_max cfg cfg' inp eq_refl). rewrite (fold_boxes_inputs cfg' inp inp' bs st0 Hp). reflexivity.
+Qed.
